@@ -7,8 +7,15 @@ let o_open kind = fun k n a c -> obytes_opt (kind ^ "_open") [k; n; a; c]
 let show = function Ok b -> "ok:" ^ hexs b | Err -> "err" | Panic -> "PANIC"
 let show_ct = function Ok b -> hexs b | Err -> "enc-err" | Panic -> "PANIC"
 
+let rec take n l = if n = 0 then [] else match l with [] -> [] | x :: t -> x :: take (n - 1) t
+let rec drop n l = if n = 0 then l else match l with [] -> [] | _ :: t -> drop (n - 1) t
+let dek_info = function
+  | "gcm16" -> ("gcm", 16, 0x1a) | "gcm32" -> ("gcm", 32, 0x1a) | "chacha" -> ("chacha", 32, 0x12)
+  | "xchacha" -> ("xchacha", 32, 0x1a) | "siv16" -> ("siv", 16, 0x1a) | "siv32" -> ("siv", 32, 0x1a)
+  | d -> failwith ("dek " ^ d)
+
 (* key description -> (enc iv p ad, dec c ad, ivlen) *)
-let scheme_of (f : string array) =
+let rec scheme_of (f : string array) =
   let scheme = f.(0) and route = f.(1) in
   let prefix = output_prefix (variant_of f.(2)) (n_of_dec f.(3)) in
   let key = unhex f.(5) in
@@ -32,8 +39,6 @@ let scheme_of (f : string array) =
     (match split '.' f.(4) with
      | [ivs; tags; hash; aeslen] ->
        let ivs = int_of_string ivs and tags = int_of_string tags and aeslen = int_of_string aeslen in
-       let rec take n l = if n = 0 then [] else match l with [] -> [] | x :: t -> x :: take (n - 1) t in
-       let rec drop n l = if n = 0 then l else match l with [] -> [] | _ :: t -> drop (n - 1) t in
        let k = { ek_aes = take aeslen key; ek_hmac = drop aeslen key; ek_iv = nat_of_int ivs; ek_tag = nat_of_int tags } in
        let aes = fun k b -> obytes "aes_enc" [k; b] in
        let hmac = fun k m -> ocall "hmac" [hash] [k; m] in
@@ -51,6 +56,23 @@ let scheme_of (f : string array) =
     let salt = int_of_string f.(4) in
     ((fun iv p ad -> xaes_enc aes (o_seal "gcm") (nat_of_int salt) prefix key iv p ad),
      (fun c ad -> xaes_dec aes (o_open "gcm") (nat_of_int salt) prefix key c ad), salt + 12)
+  | "env" ->
+    (match String.split_on_char '~' f.(4) with
+     | dek :: ks :: kr :: kp ->
+       let (kenc, kdec, kivlen) = scheme_of [| ks; kr; f.(2); f.(3); String.concat "~" kp; f.(5) |] in
+       let (ds, dklen, dtag) = dek_info dek in
+       let dek_fns d = match dek_key (n_of_int dtag) d with
+         | None -> None
+         | Some k -> Some (scheme_of [| ds; "H"; "R"; "0"; "-"; hexs k |]) in
+       let (_, _, divlen) = scheme_of [| ds; "H"; "R"; "0"; "-"; hexs (List.init dklen (fun _ -> N0)) |] in
+       let dek_enc d iv p ad = match dek_fns d with None -> Err | Some (e, _, _) -> e iv p ad in
+       let dek_dec d c ad = match dek_fns d with None -> Err | Some (_, dd, _) -> dd c ad in
+       ((fun tape p ad ->
+           let dk = take dklen tape in
+           let kiv = take kivlen (drop dklen tape) and div = drop (dklen + kivlen) tape in
+           env_enc kenc dek_enc (dek_proto (n_of_int dtag) dk) kiv div p ad),
+        (fun c ad -> env_dec kdec dek_dec c ad), dklen + kivlen + divlen)
+     | _ -> failwith "env params")
   | _ -> failwith ("scheme " ^ scheme ^ route)
 
 let handle line =
